@@ -9,6 +9,7 @@ import (
 func init() {
 	Register(&PropDef{
 		ID: "C05", Level: "model_checking", Contracts: "default", DesignRef: "DESIGN.md 5 (C05), 7",
+		Technique: "bounded symbolic execution of go/ssa (gosym) + SMT (z3): (a) all operand values with the Newton iteration replaced by frame stubs; (b) the real Sqrt (float64 seed, Newton loop, floor search, rounding) executed by the same symbolic executor on a family of concrete hard-case operands with the rounding mode as the solver variable, against an integer square-and-compare oracle; counterexamples replayed natively on both builds",
 		Jobs: func(tier string) []*sym.Job {
 			o := obl("C05.", "C02.", "C08.", "C09.")
 			jobs := []*sym.Job{
